@@ -203,6 +203,9 @@ def setup():
     lg = logging.getLogger("esrally")
     lg.addHandler(logging.NullHandler())
     lg.propagate = False
+    from esrally.utils import console  # pylint: disable=import-outside-toplevel
+
+    console.QUIET = True  # "[WARNING] Local changes ... prevent update" is expected output for dirty working copies
 
 
 def _classify(case, ref, obs):
@@ -370,6 +373,12 @@ def _run_git(case, obs):
             except exceptions.RallyError:
                 pass
             obs.cls("git:second-update")
+        head_before = _git("-C", repo_dir, "rev-parse", "--abbrev-ref", "HEAD")
+        if case.get("dirty"):
+            # an uncommitted edit of a file that differs on every branch: git refuses to switch branches
+            with open(os.path.join(repo_dir, "track.json"), "a", encoding="utf-8") as f:
+                f.write("local edit\n")
+            obs.cls("git:dirty-working-copy")
         error = None
         try:
             r.update(version)
@@ -412,6 +421,9 @@ def _run_git(case, obs):
                 ok = True  # the statement promises the tag only for local repositories
         elif error is not None:
             ok = True
+    if case.get("dirty") and isinstance(error, exceptions.DataError) and head_before not in winners:
+        ok = True  # the local edit prevents the switch to the right branch: an explicit error, and the working copy stays where it was
+        obs.cls("git:dirty-working-copy-prevents-switch")
     if not ok:
         if mode == "git-remote" and error is None and head_subject == "heads/master" and _in_f15(case):
             sig = F_REMOTE_MISS
@@ -539,6 +551,7 @@ def _git_case(draw, known):
             cand = draw(st.sampled_from([_name(vp[0]), _name(vp[0], vp[1]), _name(max(vp[0] - 1, 0))]))
             if cand not in branches:
                 case["local_only"] = [cand]
+    case["dirty"] = draw(st.sampled_from([False, False, False, True]))
     if vp and draw(st.integers(0, 2)) == 0:
         # the checked update follows an earlier one for a nearby version
         near = [f"{vp[0]}.{vp[1] + 1}.0", f"{vp[0]}.{max(vp[1] - 1, 0)}.{vp[2]}", f"{vp[0] + 1}.0.0", f"{max(vp[0] - 1, 0)}.17.3", f"1.7.3", f"{vp[0]}.{vp[0]}.1"]
